@@ -310,7 +310,18 @@ class StudyConfig(base_study_config.ProblemStatement):
         parent_value = parameter_values[parent_name]
         if parent_value not in pc.matching_parent_values:
           continue
-      parameter_values[pc.name] = remaining_parameters[pc.name].value
+      parameter_value = remaining_parameters[pc.name]
+      if (
+          pc.external_type == parameter_config.ExternalType.BOOLEAN
+          and parameter_value.as_bool is not None
+      ):
+        # Boolean parameters may be stored as bool / 1.0 / 0.0; their subspaces
+        # are keyed by the internal 'True' / 'False' strings.
+        parameter_values[pc.name] = (
+            trial.TRUE_VALUE if parameter_value.as_bool else trial.FALSE_VALUE
+        )
+      else:
+        parameter_values[pc.name] = parameter_value.value
       if pc.external_type is None:
         external_value = remaining_parameters[pc.name].value
       else:
